@@ -1,5 +1,322 @@
-"""Self-test of the rules (thorough tier) – placeholder until the variant catalogue lands."""
+"""Self-test of the rules (thorough tier, DESIGN §6.5 / Appendix B).
+
+Each *break* variant is a small edit, located by (function, code fragment) inside the function's
+AST extent, applied to a scratch copy of the package under a temporary directory outside /repo
+and /verif; the named rule must then report an unlisted violation in the named function.  Each
+*neutral* variant (whole-tree ``ast.unparse`` round trip, idiom swaps, local renames) must leave
+every verdict unchanged.  The self-test validates the checker; only a violation on the *current
+tree* makes a check exit 1.  A variant whose anchor fragment no longer exists is counted as
+stale, not as a failure.
+"""
+from __future__ import annotations
+
+import ast
+import os
+import pathlib
+import shutil
+import tempfile
+from concurrent.futures import ProcessPoolExecutor
+from typing import Dict, List, Optional, Tuple
+
+REPO = pathlib.Path(os.environ.get("PWSA_REPO", "/repo"))
+
+# (id, properties served, expected rule, expected function ('' = any), edits)
+# edit = (relpath, qualname or '', old fragment, new fragment)
+S = "photon_weave/state/"
+V = [
+    # ---------------------------------------------------------------- RNB / ROUTE / FLAGS
+    ("rnb-drop-local-import", ["C10"], "RNB", "Fock.resize", [(S + "fock.py", "Fock.resize", "        from photon_weave.state.envelope import Envelope\n", "")]),
+    ("rnb-drop-import-kraus", ["C06"], "RNB", "BaseState.apply_kraus", [(S + "base_state.py", "BaseState.apply_kraus", "        from photon_weave.state.envelope import Envelope\n", "")]),
+    ("route-drop-return", ["C01"], "ROUTE", "Polarization.apply_operation", [(S + "polarization.py", "Polarization.apply_operation", "            self.envelope.apply_operation(operation, self)\n            return\n", "            self.envelope.apply_operation(operation, self)\n")]),
+    ("route-swap-guards", ["C01"], "ROUTE", "Fock.apply_operation", [(S + "fock.py", "Fock.apply_operation", "if isinstance(self.index, int):", "if isinstance(self.index, tuple):"), (S + "fock.py", "Fock.apply_operation", "elif isinstance(self.index, tuple):", "elif isinstance(self.index, int):")]),
+    ("route-kraus-no-dispatch", ["C06"], "ROUTE", "BaseState.apply_kraus", [(S + "base_state.py", "BaseState.apply_kraus", "            self.envelope.apply_kraus(operators, self)\n            return\n", "            pass\n")]),
+    ("route-customstate-fallthrough", ["C06", "C17"], "ROUTE", "CustomState.apply_kraus", [(S + "custom_state.py", "CustomState.apply_kraus", "            self.composite_envelope.apply_kraus(operators, self)\n            return\n", "            self.composite_envelope.apply_kraus(operators, self)\n")]),
+    ("route-measure-wrong-container", ["C04", "C05"], "ROUTE", "Polarization.measure", [(S + "polarization.py", "Polarization.measure", "            return self.envelope.measure(\n", "            return self.composite_envelope.measure(\n")]),
+    ("flags-drop-destructive", ["C05"], "FLAGS", "CompositeEnvelope.measure", [(S + "composite_envelope.py", "CompositeEnvelope.measure", "                *ps_states,\n                separate_measurement=separate_measurement,\n                destructive=destructive,\n", "                *ps_states,\n                separate_measurement=separate_measurement,\n")]),
+    ("flags-drop-both-fock", ["C05"], "FLAGS", "Fock.measure", [(S + "fock.py", "Fock.measure", "            return self.envelope.measure(\n                self, separate_measurement=separate_measurement, destructive=destructive\n            )", "            return self.envelope.measure(self)")]),
+    ("flags-povm-drop", ["C09"], "FLAGS", "CompositeEnvelope.measure_POVM", [(S + "composite_envelope.py", "CompositeEnvelope.measure_POVM", "ps.measure_POVM(operators, *states, destructive=destructive)", "ps.measure_POVM(operators, *states)")]),
+    ("flags-invert", ["C09"], "FLAGS", "Envelope.measure_POVM", [(S + "envelope.py", "Envelope.measure_POVM", "outcome = self.fock.measure_POVM(operators, destructive=destructive)", "outcome = self.fock.measure_POVM(operators, destructive=not destructive)")]),
+    # ---------------------------------------------------------------- SAMP
+    ("samp-hoist-key", ["C14"], "SAMP-a", "ProductState.measure", [(S + "composite_envelope.py", "ProductState.measure", "        remaining_states = [s for s in self.state_objs]\n", "        remaining_states = [s for s in self.state_objs]\n        key = C.random_key\n"), (S + "composite_envelope.py", "ProductState.measure", "                # Decide on output\n                key = C.random_key\n", "                # Decide on output\n"), (S + "composite_envelope.py", "ProductState.measure", "                # Decide on outcome\n                key = C.random_key\n", "                # Decide on outcome\n")]),
+    ("samp-reuse-key", ["C14"], "SAMP-a", "Envelope.measure", [(S + "envelope.py", "Envelope.measure", "                    outcomes[self.polarization] = choice\n\n                    # Construct post measurement state\n                    post_measurement = jnp.take(ps, choice, self.polarization.index)", "                    outcomes[self.polarization] = choice\n                    post_measurement = jnp.take(ps, choice, self.polarization.index)"), (S + "envelope.py", "Envelope.measure", "                        jnp.abs(jnp.sum(ps, axis=self.fock.index)).flatten() ** 2\n                    )\n                    key = C.random_key\n", "                        jnp.abs(jnp.sum(ps, axis=self.fock.index)).flatten() ** 2\n                    )\n")]),
+    ("samp-literal-key", ["C14"], "SAMP-a", "Fock.measure", [(S + "fock.py", "Fock.measure", "                probs = probs / jnp.sum(probs)\n                key = C.random_key\n", "                probs = probs / jnp.sum(probs)\n                key = jax.random.PRNGKey(0)\n")]),
+    ("samp-getter-no-advance", ["C14"], "SAMP-b", "Config.random_key", [("photon_weave/photon_weave.py", "Config.random_key", "        key, self._key = jax.random.split(self._key)\n        return key", "        key, _ = jax.random.split(self._key)\n        return key")]),
+    ("samp-getter-returns-stored", ["C14"], "SAMP-b", "Config.random_key", [("photon_weave/photon_weave.py", "Config.random_key", "        return key", "        return self._key")]),
+    ("samp-init-unguarded", ["C14"], "SAMP-b", "Config.__init__", [("photon_weave/photon_weave.py", "Config.__init__", "        if not hasattr(self, \"_initialized\"):", "        if True:")]),
+    ("samp-set-seed-folds", ["C14"], "SAMP-b", "Config.set_seed", [("photon_weave/photon_weave.py", "Config.set_seed", "        self._key = jax.random.PRNGKey(seed)", "        self._key = jax.random.fold_in(self._key, seed)")]),
+    ("samp-set-order", ["C14"], "SAMP-c", "CompositeEnvelope.combine", [(S + "composite_envelope.py", "CompositeEnvelope.combine", "existing_product_states = list(dict.fromkeys(existing_product_states))", "existing_product_states = list(set(existing_product_states))")]),
+    ("samp-e-no-square", ["C04"], "SAMP-e", "Fock.measure", [(S + "fock.py", "Fock.measure", "probs = jnp.abs(self.state.flatten()) ** 2", "probs = jnp.abs(self.state.flatten())")]),
+    ("samp-e-sum-first", ["C04"], "SAMP-e", "ProductState.measure", [(S + "composite_envelope.py", "ProductState.measure", "projected_state = jnp.einsum(einsum, jnp.abs(ps) ** 2)", "projected_state = jnp.abs(jnp.einsum(einsum, ps)) ** 2")]),
+    ("samp-e-matrix-no-diag", ["C04"], "SAMP-e", "CustomState.measure", [(S + "custom_state.py", "CustomState.measure", "probabilities = jnp.diag(self.state).real", "probabilities = jnp.sum(self.state, axis=1).real")]),
+    ("samp-f-trace-m-rho", ["C09"], "SAMP-f", "ProductState.measure_POVM", [(S + "composite_envelope.py", "ProductState.measure_POVM", "prob_state = jnp.einsum(einsum, op, ps, jnp.conj(op))", "prob_state = jnp.einsum(ESC.apply_operator_vector(self.state_objs, list(states)), op, ps)")]),
+    ("samp-f-own-state", ["C09"], "SAMP-f", "BaseState.measure_POVM", [(S + "base_state.py", "BaseState.measure_POVM", "jnp.matmul(op, jnp.matmul(self.state, jnp.conj(op.T)))", "jnp.matmul(op, self.state)")]),
+    # ---------------------------------------------------------------- NORM / OUTER / TAG / SANDWICH / KRAUS
+    ("norm-frobenius-fock", ["C01", "C07"], "NORM", "Fock.apply_operation", [(S + "fock.py", "Fock.apply_operation", "self.state = self.state / jnp.trace(self.state)", "self.state = self.state / jnp.linalg.norm(self.state)")]),
+    ("norm-frobenius-product", ["C05", "C07"], "NORM", "ProductState.measure", [(S + "composite_envelope.py", "ProductState.measure", "self.state /= jnp.trace(self.state)", "self.state /= jnp.linalg.norm(self.state)")]),
+    ("norm-trace-on-ket", ["C01", "C07"], "NORM", "CustomState.apply_operation", [(S + "custom_state.py", "CustomState.apply_operation", "            if operation.renormalize:\n                self.state = self.state / jnp.linalg.norm(self.state)", "            if operation.renormalize:\n                self.state = self.state / jnp.trace(self.state)")]),
+    ("renorm-dropped", ["C01", "C07"], "RENORM", "Polarization.apply_operation", [(S + "polarization.py", "Polarization.apply_operation", "            if operation.renormalize:\n                self.state = self.state / jnp.linalg.norm(self.state)\n", "")]),
+    ("zero-test-dropped", ["C07", "C17"], "ZERO", "Envelope.apply_operation", [(S + "envelope.py", "Envelope.apply_operation", "            if not jnp.any(jnp.abs(ps) > 0):\n                raise ValueError(\n                    \"The state is entirely composed of zeros, is |0⟩ attempted \"\n                    \"to be annihilated?\"\n                )\n", "")]),
+    ("outer-drop-conj-fock", ["C08"], "OUTER", "Fock.expand", [(S + "fock.py", "Fock.expand", "self.state.flatten(), jnp.conj(self.state.flatten())", "self.state.flatten(), self.state.flatten()")]),
+    ("outer-drop-conj-envelope", ["C08"], "OUTER", "Envelope.expand", [(S + "envelope.py", "Envelope.expand", "jnp.dot(self.state, jnp.conj(self.state.T))", "jnp.dot(self.state, self.state.T)")]),
+    ("outer-conj-wrong-factor", ["C08"], "OUTER", "ProductState.expand", [(S + "composite_envelope.py", "ProductState.expand", "jnp.outer(self.state.flatten(), jnp.conj(self.state.flatten()))", "jnp.outer(jnp.conj(self.state.flatten()), self.state.flatten())")]),
+    ("tag-members-dropped", ["C07"], "TAG", "ProductState.expand", [(S + "composite_envelope.py", "ProductState.expand", "            for state in self.state_objs:\n                state.expansion_level = ExpansionLevel.Matrix\n", "")]),
+    ("tag-label-unconditional", ["C07", "C08"], "TAG", "Fock.contract", [(S + "fock.py", "Fock.contract", "            if ones.size == 1:\n                self.state = int(ones[0])\n                self.expansion_level = ExpansionLevel.Label", "            if ones.size == 1:\n                self.state = int(ones[0])\n            self.expansion_level = ExpansionLevel.Label")]),
+    ("purity-inverted", ["C08"], "PURITY", "Envelope.contract", [(S + "envelope.py", "Envelope.contract", "if jnp.abs(state_trace - 1) < tol:", "if jnp.abs(state_trace - 1) >= tol:")]),
+    ("purity-dropped", ["C08", "C06"], "PURITY", "ProductState.contract", [(S + "composite_envelope.py", "ProductState.contract", "            if jnp.abs(jnp.trace(jnp.matmul(self.state, self.state)) - 1) >= tol:\n                return\n", "")]),
+    ("contract-only-write", ["C08"], "CONTRACT-ONLY", "Fock.apply_operation", [(S + "fock.py", "Fock.apply_operation", "        if C.contractions:\n            self.contract()", "        if C.contractions:\n            self.contract()\n            self.state = self.state")]),
+    ("sandwich-drop-conj", ["C01"], "SANDWICH", "Envelope.apply_operation", [(S + "envelope.py", "Envelope.apply_operation", "\"ij,jklm,nk->inlm\", operation.operator, ps, jnp.conj(operation.operator)", "\"ij,jklm,nk->inlm\", operation.operator, ps, operation.operator")]),
+    ("sandwich-swap-letters", ["C01"], "SANDWICH-LIT", "Fock.apply_operation", [(S + "fock.py", "Fock.apply_operation", "\"ca,ab,db->cd\"", "\"ca,ab,bd->cd\"")]),
+    ("sandwich-povm-literal", ["C09"], "SANDWICH-LIT", "Envelope.measure_POVM", [(S + "envelope.py", "Envelope.measure_POVM", "einsum = \"eafc,abcd,gbhd->egfh\"", "einsum = \"eacf,abcd,gbhd->egfh\"")]),
+    ("sandwich-kraus-dagger", ["C06"], "SANDWICH", "apply_kraus", [("photon_weave/_math/ops.py", "ops:apply_kraus", "K @ density_matrix @ jnp.conjugate(K).T", "K @ density_matrix @ K.T")]),
+    ("kraus-sum-overwrite", ["C06"], "KRAUS-SUM", "ProductState.apply_kraus", [(S + "composite_envelope.py", "ProductState.apply_kraus", "resulting_state += jnp.einsum(einsum, op, ps, jnp.conj(op))", "resulting_state = jnp.einsum(einsum, op, ps, jnp.conj(op))")]),
+    ("kraus-level-no-promotion", ["C06"], "KRAUS-LEVEL", "ProductState.apply_kraus", [(S + "composite_envelope.py", "ProductState.apply_kraus", "        # A channel can turn a pure state into a mixture\n        self.expand()\n", "")]),
+    ("kraus-valid-no-identity", ["C06", "C17"], "KRAUS-VALID", "CustomState.apply_kraus", [(S + "custom_state.py", "CustomState.apply_kraus", "        if not kraus_identity_check(operators):\n            raise ValueError(\"Kraus operators do not sum to the identity\")\n", "")]),
+    ("kraus-valid-after-update", ["C06", "C17"], "KRAUS-VALID", "BaseState.apply_kraus", [(S + "base_state.py", "BaseState.apply_kraus", "        for op in operators:\n            if not op.shape == (self.dimensions, self.dimensions):\n                raise ValueError(\"Operator dimensions do not match state dimensions\")\n", "")]),
+    # ---------------------------------------------------------------- VBC / BOOK / IDENT / BLOCK
+    ("vbc-commit-before-zero-test", ["C17"], "VBC", "Polarization.apply_operation", [(S + "polarization.py", "Polarization.apply_operation", "            new_state = jnp.einsum(\"ij,jk->ik\", operation.operator, self.state)\n            if not jnp.any(jnp.abs(new_state) > 0):", "            new_state = jnp.einsum(\"ij,jk->ik\", operation.operator, self.state)\n            self.state = new_state\n            if not jnp.any(jnp.abs(new_state) > 0):")]),
+    ("vbc-envelope-commit-first", ["C17"], "VBC", "Envelope.apply_operation", [(S + "envelope.py", "Envelope.apply_operation", "            ps = jnp.einsum(\"ij,jkl->ikl\", operation.operator, ps)\n", "            ps = jnp.einsum(\"ij,jkl->ikl\", operation.operator, ps)\n            self.state = ps.reshape((-1, 1))\n")]),
+    ("vbc-resize-label", ["C10", "C17"], "VBC", "Fock.resize", [(S + "fock.py", "Fock.resize", "                    self.dimensions = new_dimensions\n                    return True\n            elif self.expansion_level is ExpansionLevel.Vector:", "                    self.dimensions = new_dimensions\n            elif self.expansion_level is ExpansionLevel.Vector:")]),
+    ("book-order-swap", ["C13"], "BOOK-order", "CompositeEnvelope.measure", [(S + "composite_envelope.py", "CompositeEnvelope.measure", "        self._containers[self.uid].remove_empty_product_states()\n        self._containers[self.uid].update_all_indices()", "        self._containers[self.uid].update_all_indices()\n        self._containers[self.uid].remove_empty_product_states()")]),
+    ("book-no-refresh-combine", ["C13"], "BOOK-order", "CompositeEnvelope.combine", [(S + "composite_envelope.py", "CompositeEnvelope.combine", "        self.container.update_all_indices()", "        pass")]),
+    ("book-merge-self", ["C13"], "BOOK-merge", "CompositeEnvelope.__init__", [(S + "composite_envelope.py", "CompositeEnvelope.__init__", "            elif CompositeEnvelope._containers[ce.uid] is not ce_container:", "            else:")]),
+    ("book-evict-custom", ["C05", "C13"], "BOOK-evict", "ProductState.measure", [(S + "composite_envelope.py", "ProductState.measure", "                if destructive and not isinstance(state, CustomState):\n                    state._set_measured()\n                else:\n                    if isinstance(state, Polarization):\n                        if outcomes[state] == 0:\n                            state.state = PolarizationLabel.H\n                        else:\n                            state.state = PolarizationLabel.V\n                    else:\n                        state.state = outcomes[state]\n                    state.index = None\n                    state.expansion_level = ExpansionLevel.Label\n                self.state_objs.remove(state)", "                if destructive:\n                    state._set_measured()\n                else:\n                    if isinstance(state, Polarization):\n                        if outcomes[state] == 0:\n                            state.state = PolarizationLabel.H\n                        else:\n                            state.state = PolarizationLabel.V\n                    else:\n                        state.state = outcomes[state]\n                    state.index = None\n                    state.expansion_level = ExpansionLevel.Label\n                self.state_objs.remove(state)")]),
+    ("book-evict-index-kept", ["C05", "C13"], "BOOK-evict", "ProductState.measure", [(S + "composite_envelope.py", "ProductState.measure", "                        state.state = outcomes[state]\n                    state.index = None\n                    state.expansion_level = ExpansionLevel.Label\n\n                # Remove the mesaured state from the product state", "                        state.state = outcomes[state]\n                    state.expansion_level = ExpansionLevel.Label\n\n                # Remove the mesaured state from the product state")]),
+    ("book-own-registry-iteration", ["C13"], "BOOK-own", "CompositeEnvelope.update_composite_envelope_pointers", [(S + "composite_envelope.py", "CompositeEnvelope.update_composite_envelope_pointers", "        for envelope in self.envelopes:\n            envelope.set_composite_envelope_id(self.uid)", "        for c in CompositeEnvelope._containers.values():\n            for envelope in c.envelopes:\n                envelope.set_composite_envelope_id(self.uid)")]),
+    ("ident-is-to-in", ["C18"], "IDENT-site", "Envelope.measure_POVM", [(S + "envelope.py", "Envelope.measure_POVM", "if s is not self.polarization and s is not self.fock:", "if s not in [self.polarization, self.fock]:")]),
+    ("ident-eq-compare", ["C18"], "IDENT-site", "Envelope.reorder", [(S + "envelope.py", "Envelope.reorder", "if states_list[0] is self.fock:", "if states_list[0] == self.fock:")]),
+    ("block-all-spaces", ["C20", "C03"], "BLOCK", "CompositeEnvelope.apply_operation", [(S + "composite_envelope.py", "CompositeEnvelope.apply_operation", "            p for p in self.states if any(so in p.state_objs for so in states)\n        ]\n        ps = None\n        if len(product_states) > 1 or (", "            p for p in self.states\n        ]\n        ps = None\n        if len(product_states) > 1 or (")]),
+    ("block-combine-everything", ["C20"], "BLOCK", "CompositeEnvelope.trace_out", [(S + "composite_envelope.py", "CompositeEnvelope.trace_out", "self.combine(*all_states)", "self.combine(*self.state_objs)")]),
+    ("block-shortcut-removed", ["C20"], "BLOCK", "CompositeEnvelope.apply_kraus", [(S + "composite_envelope.py", "CompositeEnvelope.apply_kraus", "            if len(states) == 1:\n                states[0].apply_kraus(operators)\n                return\n            elif len(states) == 2:", "            if len(states) == 2:")]),
+    ("block-expand-all", ["C20"], "BLOCK", "CompositeEnvelope.expand", [(S + "composite_envelope.py", "CompositeEnvelope.expand", "            p for p in self.states if any(so in p.state_objs for so in states)\n        ]\n        for p in product_states:\n            p.expand()", "            p for p in self.states if True\n        ]\n        for p in product_states:\n            p.expand()")]),
+    # ---------------------------------------------------------------- PURE / INTERP / RESIZE
+    ("pure-getter-cache", ["C15"], "PURE-b", "Operation.operator", [("photon_weave/operation/operation.py", "Operation.operator", "        self._operator = self._operation_type.compute_operator(", "        if self._operator is not None:\n            return self._operator\n        self._operator = self._operation_type.compute_operator(")]),
+    ("pure-enum-write", ["C15"], "PURE-a", "FockOperationType.update", [("photon_weave/operation/fock_operation.py", "FockOperationType.update", "        return", "        self.required_params = list(kwargs)\n        return")]),
+    ("pure-lru-cache", ["C15"], "PURE-c", "", [("photon_weave/operation/polarization_operation.py", "", "    def compute_operator(self, dimensions: List[int], **kwargs: Any) -> jnp.ndarray:", "    @functools.lru_cache\n    def compute_operator(self, dimensions: List[int], **kwargs: Any) -> jnp.ndarray:")]),
+    ("pure-operator-before-dimensions", ["C15", "C10", "C01"], "PURE-b", "Fock.apply_operation", [(S + "fock.py", "Fock.apply_operation", "        operation.compute_dimensions(self._num_quanta, to)\n        self.resize(operation.dimensions[0])\n", "        self.resize(operation.dimensions[0])\n")]),
+    ("pure-wrong-dimension-index", ["C03", "C10"], "PURE-b", "ProductState.apply_operation", [(S + "composite_envelope.py", "ProductState.apply_operation", "s.resize(operation._dimensions[i])", "s.resize(operation._dimensions[0])")]),
+    ("alias-interp-inplace", ["C16"], "ALIAS-MUT", "interpreter", [("photon_weave/extra/expression_interpreter.py", "interpreter", "result = result * interpreter(arg, context, dimensions)", "result *= interpreter(arg, context, dimensions)")]),
+    ("alias-kraus-inplace", ["C15"], "ALIAS-MUT", "Envelope.apply_kraus", [(S + "envelope.py", "Envelope.apply_kraus", "        dim = int(jnp.prod(jnp.array([s.dimensions for s in states])))\n        for op in operators:\n            if op.shape != (dim, dim):", "        dim = int(jnp.prod(jnp.array([s.dimensions for s in states])))\n        for op in operators:\n            op /= 1.0\n            if op.shape != (dim, dim):")]),
+    ("interp-swap-kron", ["C16"], "INTERP", "interpreter", [("photon_weave/extra/expression_interpreter.py", "interpreter", "result = jnp.kron(result, interpreter(arg, context, dimensions))", "result = jnp.kron(interpreter(arg, context, dimensions), result)")]),
+    ("interp-swap-sub", ["C16"], "INTERP", "interpreter", [("photon_weave/extra/expression_interpreter.py", "interpreter", "            result = interpreter(args[0], context, dimensions)\n            result = jnp.subtract(result, interpreter(args[1], context, dimensions))", "            result = interpreter(args[1], context, dimensions)\n            result = jnp.subtract(result, interpreter(args[0], context, dimensions))")]),
+    ("interp-swap-div", ["C16"], "INTERP", "interpreter", [("photon_weave/extra/expression_interpreter.py", "interpreter", "            return interpreter(args[0], context, dimensions) / interpreter(\n                args[1], context, dimensions\n            )", "            return interpreter(args[1], context, dimensions) / interpreter(\n                args[0], context, dimensions\n            )")]),
+    ("interp-return-none", ["C16"], "INTERP", "interpreter", [("photon_weave/extra/expression_interpreter.py", "interpreter", "    raise ValueError(\"Something went wrong in the expression interpreter!\")", "    return None")]),
+    ("interp-drop-div", ["C16"], "INTERP", "interpreter", [("photon_weave/extra/expression_interpreter.py", "interpreter", "        elif op == \"div\":\n            return interpreter(args[0], context, dimensions) / interpreter(\n                args[1], context, dimensions\n            )\n", "")]),
+    ("interp-skip-arg", ["C16"], "INTERP", "interpreter", [("photon_weave/extra/expression_interpreter.py", "interpreter", "            for arg in args[1:]:\n                result = jnp.add(result, interpreter(arg, context, dimensions))", "            for arg in args[2:]:\n                result = jnp.add(result, interpreter(arg, context, dimensions))")]),
+    ("interp-wrong-op", ["C16"], "INTERP", "interpreter", [("photon_weave/extra/expression_interpreter.py", "interpreter", "result = result @ interpreter(arg, context, dimensions)", "result = result * interpreter(arg, context, dimensions)")]),
+    ("resize-guard-off-by-one", ["C10"], "RESIZE", "Envelope.resize_fock", [(S + "envelope.py", "Envelope.resize_fock", "                num_quanta = num_quanta_vector(to)\n                if num_quanta >= new_dimensions:", "                num_quanta = num_quanta_vector(to)\n                if num_quanta > new_dimensions:")]),
+    ("resize-guard-dropped", ["C10"], "RESIZE", "ProductState.resize_fock", [(S + "composite_envelope.py", "ProductState.resize_fock", "                num_quanta = num_quanta_vector(to)\n                if num_quanta >= new_dimensions:\n                    return False\n", "                num_quanta = num_quanta_vector(to)\n")]),
+    ("resize-fock-vector-guard", ["C10"], "RESIZE", "Fock.resize", [(S + "fock.py", "Fock.resize", "num_quanta < new_dimensions:\n                    self.state = self.state[:new_dimensions]", "num_quanta < new_dimensions + 1:\n                    self.state = self.state[:new_dimensions]")]),
+    ("resize-pad-edge", ["C10"], "RESIZE", "Fock.resize", [(S + "fock.py", "Fock.resize", "                        ((0, padding_rows), (0, 0)),\n                        mode=\"constant\",\n                        constant_values=0,", "                        ((0, padding_rows), (0, 0)),\n                        mode=\"edge\",")]),
+    ("resize-dimension-without-array", ["C10"], "RESIZE", "Envelope.resize_fock", [(S + "envelope.py", "Envelope.resize_fock", "                ps = jnp.pad(ps, pad_config, mode=\"constant\", constant_values=0)\n                self.state = ps.reshape(-1, 1)\n                self.fock.dimensions = new_dimensions", "                ps = jnp.pad(ps, pad_config, mode=\"constant\", constant_values=0)\n                self.fock.dimensions = new_dimensions")]),
+    # ---------------------------------------------------------------- ESC / MEASURE / PAIR / DISPATCH
+    ("esccall-swap-args", ["C01", "C03"], "ESCCALL", "ProductState.apply_operation", [(S + "composite_envelope.py", "ProductState.apply_operation", "einsum = ESC.apply_operator_matrix(self.state_objs, list(states))", "einsum = ESC.apply_operator_matrix(list(states), self.state_objs)")]),
+    ("esccall-operator-storage-shape", ["C01", "C03"], "ESCCALL", "ProductState.apply_operation", [(S + "composite_envelope.py", "ProductState.apply_operation", "            operator = operation.operator.reshape([s.dimensions for s in states] * 2)\n\n            # Generate the Einstein sum string\n", "            operator = operation.operator.reshape([s.dimensions for s in self.state_objs] * 2)\n\n            # Generate the Einstein sum string\n")]),
+    ("esccall-no-reorder", ["C02"], "ESCCALL", "CompositeEnvelope.trace_out", [(S + "composite_envelope.py", "CompositeEnvelope.trace_out", "        self.reorder(*states)\n\n        return ps.trace_out(*states)", "        return ps.trace_out(*states)")]),
+    ("escgen-dict-position", ["C01", "C03", "C06"], "ESCGEN", "apply_operator_vector", [("photon_weave/extra/einsum_constructor.py", "einsum_constructor:apply_operator_vector", "            einsum_list_list[2].append(einsum_dict[s][1])\n        else:\n            einsum_list_list[2].append(einsum_dict[s][0])", "            einsum_list_list[2].append(einsum_dict[s][0])\n        else:\n            einsum_list_list[2].append(einsum_dict[s][0])")]),
+    ("escgen-storage-order", ["C01", "C03", "C06", "C09"], "ESCGEN", "apply_operator_matrix", [("photon_weave/extra/einsum_constructor.py", "einsum_constructor:apply_operator_matrix", "    for s in operator_objs:\n        einsum_list_list[0].append(einsum_dict[s][0])", "    for s in state_objs:\n        if s in operator_objs:\n            einsum_list_list[0].append(einsum_dict[s][0])")]),
+    ("escgen-conj-side", ["C01", "C03", "C06", "C09"], "ESCGEN", "apply_operator_matrix", [("photon_weave/extra/einsum_constructor.py", "einsum_constructor:apply_operator_matrix", "    for s in operator_objs:\n        einsum_list_list[2].append(einsum_dict[s][1])", "    for s in operator_objs:\n        einsum_list_list[2].append(einsum_dict[s][0])")]),
+    ("escgen-reorder-pass", ["C02"], "ESCGEN", "reorder_matrix", [("photon_weave/extra/einsum_constructor.py", "einsum_constructor:reorder_matrix", "            c = einsum_dict[s][i]", "            c = einsum_dict[s][0]")]),
+    ("escgen-trace-shared", ["C02", "C09"], "ESCGEN", "trace_out_matrix", [("photon_weave/extra/einsum_constructor.py", "einsum_constructor:trace_out_matrix", "            einsum_dict[so].append(next(counter))\n    for _ in range(2):", "            einsum_dict[so].append(0)\n    for _ in range(2):")]),
+    ("escgen-measure-no-trace", ["C04"], "ESCGEN", "measure_matrix", [("photon_weave/extra/einsum_constructor.py", "einsum_constructor:measure_matrix", "                c = einsum_dict[so][0]\n            einsum_list_list[0].append(c)", "                c = next(counter)\n            einsum_list_list[0].append(c)")]),
+    ("measure-set-one-member", ["C05", "C04"], "MEASURE-SET", "Envelope.measure", [(S + "envelope.py", "Envelope.measure", "                    (separate_measurement and self.fock in states)\n                    or not separate_measurement\n                    or len(states) == 0\n                    or len(states) == 2\n                ):\n                    probabilities = (", "                    (separate_measurement and self.fock in states)\n                    or len(states) == 0\n                    or len(states) == 2\n                ):\n                    probabilities = (")]),
+    ("collapse-no-renormalise", ["C05", "C07"], "COLLAPSE", "ProductState.measure", [(S + "composite_envelope.py", "ProductState.measure", "                self.state = ps.reshape(-1, 1)\n                self.state /= jnp.linalg.norm(self.state)", "                self.state = ps.reshape(-1, 1)")]),
+    ("collapse-no-conditioning", ["C04", "C05"], "COLLAPSE", "ProductState.measure", [(S + "composite_envelope.py", "ProductState.measure", "                indices[remaining_states.index(state)] = outcomes[state]\n                ps = ps[tuple(indices)]", "                indices[remaining_states.index(state)] = outcomes[state]\n                ps = jnp.sum(ps, axis=remaining_states.index(state))")]),
+    ("pair-kron-order", ["C02"], "PAIR", "Envelope.combine", [(S + "envelope.py", "Envelope.combine", "            self.state = jnp.kron(self.fock.state, self.polarization.state)\n            self.expansion_level = ExpansionLevel.Vector", "            self.state = jnp.kron(self.polarization.state, self.fock.state)\n            self.expansion_level = ExpansionLevel.Vector")]),
+    ("pair-kron-left", ["C02"], "PAIR", "CompositeEnvelope.combine", [(S + "composite_envelope.py", "CompositeEnvelope.combine", "                    state_vector_or_matrix = jnp.kron(state_vector_or_matrix, so.state)\n                else:", "                    state_vector_or_matrix = jnp.kron(so.state, state_vector_or_matrix)\n                else:")]),
+    ("pair-order-not-updated", ["C02"], "PAIR", "ProductState.reorder", [(S + "composite_envelope.py", "ProductState.reorder", "            self.state = state.reshape((new_dims, new_dims))\n            self.state_objs = list(ordered_states)", "            self.state = state.reshape((new_dims, new_dims))")]),
+    ("pair-reorder-perm", ["C02"], "PAIR", "Envelope.reorder", [(S + "envelope.py", "Envelope.reorder", "tmp_matrix = jnp.transpose(tmp_matrix, (1, 0, 3, 2))", "tmp_matrix = jnp.transpose(tmp_matrix, (1, 0, 2, 3))")]),
+    ("dispatch-swap-arms", ["C12"], "DISPATCH", "PolarizationOperationType.compute_operator", [("photon_weave/operation/polarization_operation.py", "PolarizationOperationType.compute_operator", "            case PolarizationOperationType.X:\n                return x_operator()", "            case PolarizationOperationType.X:\n                return z_operator()")]),
+    ("dispatch-u3-args", ["C12"], "DISPATCH", "PolarizationOperationType.compute_operator", [("photon_weave/operation/polarization_operation.py", "PolarizationOperationType.compute_operator", "u3_operator(kwargs[\"phi\"], kwargs[\"theta\"], kwargs[\"omega\"])", "u3_operator(kwargs[\"theta\"], kwargs[\"phi\"], kwargs[\"omega\"])")]),
+    ("dispatch-drop-arm", ["C12"], "DISPATCH", "FockOperationType.compute_operator", [("photon_weave/operation/fock_operation.py", "FockOperationType.compute_operator", "            case FockOperationType.Identity:\n                return jnp.identity(dimensions[0])\n", "")]),
+    ("defs-cnot-entry", ["C12"], "DEFS", "controlled_not_operator", [("photon_weave/_math/ops.py", "ops:controlled_not_operator", "[[1, 0, 0, 0], [0, 1, 0, 0], [0, 0, 0, 1], [0, 0, 1, 0]]", "[[1, 0, 0, 0], [0, 1, 0, 0], [0, 0, 1, 0], [0, 0, 0, 1]]")]),
+    ("defs-rx-sign", ["C12"], "DEFS", "rx_operator", [("photon_weave/_math/ops.py", "ops:rx_operator", "term_2 = 1j * jnp.sin(-theta / 2)", "term_2 = 1j * jnp.sin(theta / 2)")]),
+    ("defs-u3-phase", ["C12"], "DEFS", "u3_operator", [("photon_weave/_math/ops.py", "ops:u3_operator", "jnp.exp(1j * (phi + omega)) * cos_term", "jnp.exp(1j * (phi - omega)) * cos_term")]),
+    ("defs-t-gate", ["C12"], "DEFS", "t_operator", [("photon_weave/_math/ops.py", "ops:t_operator", "jnp.exp(1j * np.pi / 4)", "jnp.exp(1j * np.pi / 2)")]),
+    ("defs-displacement", ["C12"], "DEFS", "displacement_operator", [("photon_weave/_math/ops.py", "ops:displacement_operator", "operator = alpha * create - jnp.conj(alpha) * destroy", "operator = alpha * create + jnp.conj(alpha) * destroy")]),
+    ("defs-annihilation-offset", ["C12", "C11"], "DEFS", "annihilation_operator", [("photon_weave/_math/ops.py", "ops:annihilation_operator", "jnp.arange(1, cutoff, dtype=np.complex128)), 1)", "jnp.arange(1, cutoff, dtype=np.complex128)), -1)")]),
+    ("defs-phase-sign", ["C11", "C12"], "DEFS", "phase_operator", [("photon_weave/_math/ops.py", "ops:phase_operator", "phases = jnp.exp(1j * indices * theta)", "phases = jnp.exp(1j * (indices + 1) * theta)")]),
+    ("balance-two-creations", ["C11"], "BALANCE", "CompositeOperationType.compute_operator", [("photon_weave/operation/composite_operation.py", "CompositeOperationType.compute_operator", "operator = jnp.kron(a_dagger, b) + jnp.kron(a, b_dagger)", "operator = jnp.kron(a, b) + jnp.kron(a, b_dagger)")]),
+    ("balance-non-hermitian", ["C11"], "BALANCE", "CompositeOperationType.compute_operator", [("photon_weave/operation/composite_operation.py", "CompositeOperationType.compute_operator", "operator = jnp.kron(a_dagger, b) + jnp.kron(a, b_dagger)", "operator = jnp.kron(a_dagger, b) - jnp.kron(a, b_dagger)")]),
+    ("balance-cutoff", ["C11", "C10"], "BALANCE", "CompositeOperationType.compute_dimensions", [("photon_weave/operation/composite_operation.py", "CompositeOperationType.compute_dimensions", "dim = int(jnp.sum(jnp.array(num_quanta))) + 1", "dim = int(jnp.max(jnp.array(num_quanta))) + 1")]),
+    ("balance-same-mode", ["C11"], "BALANCE", "CompositeOperationType.compute_operator", [("photon_weave/operation/composite_operation.py", "CompositeOperationType.compute_operator", "b = creation_operator(dimensions[1])", "b = creation_operator(dimensions[0])")]),
+]
+
+# neutral variants: (id, transform name)
+NEUTRAL = ["unparse-roundtrip", "conj-method-idiom", "abs2-square-idiom", "rename-key-local"]
 
 
-def run_selftest(pid: str, seed: int) -> dict:
-    return {"variants": 0, "failed": []}
+def _func_extent(tree: ast.Module, qual: str) -> Optional[Tuple[int, int]]:
+    if ":" in qual:
+        qual = qual.split(":", 1)[1]
+    parts = qual.split(".")
+    body = tree.body
+    node = None
+    for i, p in enumerate(parts):
+        found = None
+        for s in body:
+            if isinstance(s, (ast.FunctionDef, ast.ClassDef)) and s.name == p:
+                # property getter vs setter: first match
+                found = s
+                break
+        if found is None:
+            return None
+        node = found
+        body = getattr(found, "body", [])
+    lo = min([node.lineno] + [d.lineno for d in getattr(node, "decorator_list", [])])
+    return lo, node.end_lineno
+
+
+def apply_edits(root: pathlib.Path, edits) -> Optional[str]:
+    """returns None on success, or the reason the variant is stale"""
+    for rel, qual, old, new in edits:
+        p = root / rel
+        if not p.exists():
+            return f"{rel} missing"
+        text = p.read_text()
+        if qual:
+            ext = _func_extent(ast.parse(text), qual)
+            if ext is None:
+                return f"{qual} not found"
+            lines = text.split("\n")
+            lo, hi = ext
+            seg = "\n".join(lines[lo - 1:hi]) + "\n"
+            if seg.count(old) < 1:
+                return f"fragment not found in {qual}"
+            seg2 = seg.replace(old, new, 1)
+            text = "\n".join(lines[:lo - 1]) + ("\n" if lo > 1 else "") + seg2 + "\n".join(lines[hi:])
+        else:
+            if text.count(old) < 1:
+                return f"fragment not found in {rel}"
+            text = text.replace(old, new, 1)
+        try:
+            ast.parse(text)
+        except SyntaxError as e:
+            return f"edit does not parse: {e}"
+        p.write_text(text)
+    return None
+
+
+def _neutral_transform(root: pathlib.Path, name: str) -> Optional[str]:
+    files = sorted((root / "photon_weave").rglob("*.py"))
+    if name == "unparse-roundtrip":
+        for p in files:
+            p.write_text(ast.unparse(ast.parse(p.read_text())) + "\n")
+        return None
+    if name == "conj-method-idiom":
+        n = 0
+        for p in files:
+            t = p.read_text()
+            t2 = t.replace("jnp.conj(operation.operator)", "operation.operator.conj()").replace("jnp.conj(op)", "op.conj()")
+            n += t != t2
+            p.write_text(t2)
+        return None if n else "no conj idiom found"
+    if name == "abs2-square-idiom":
+        n = 0
+        for p in files:
+            t = p.read_text()
+            t2 = t.replace("jnp.abs(self.state.flatten()) ** 2", "jnp.square(jnp.abs(self.state.flatten()))")
+            n += t != t2
+            p.write_text(t2)
+        return None if n else "no abs**2 idiom found"
+    if name == "rename-key-local":
+        p = root / "photon_weave/state/fock.py"
+        t = p.read_text()
+        t2 = t.replace("key = C.random_key", "fresh_key = C.random_key").replace("jax.random.choice(key,", "jax.random.choice(fresh_key,")
+        p.write_text(t2)
+        return None if t != t2 else "no key local found"
+    return "unknown transform"
+
+
+def _collect(root: pathlib.Path):
+    """(rule, where, key, status) of every obligation on the tree under root"""
+    from .model import Repo
+    from .rules import RULES, load_all
+    load_all()
+    repo = Repo(root)
+    out = []
+    for name, fn in RULES.items():
+        out += fn(repo)
+    return out
+
+
+def _run_variant(args):
+    kind, vid, payload = args
+    from .model import AnalysisError
+    from .report import load_known, known_match
+    tmp = pathlib.Path(tempfile.mkdtemp(prefix="pwsa_selftest_"))
+    try:
+        shutil.copytree(REPO / "photon_weave", tmp / "photon_weave")
+        if (REPO / "examples").exists():
+            shutil.copytree(REPO / "examples", tmp / "examples")
+        if kind == "break":
+            _, props, rule, where, edits = payload
+            stale = apply_edits(tmp, edits)
+            if stale:
+                return (vid, "stale", stale)
+            try:
+                obs = _collect(tmp)
+            except AnalysisError as e:
+                return (vid, "detected", f"analysis refuses the tree (exit 2): {e}")
+            known = load_known()["known"]
+            hits = [o for o in obs if o.status == "violation" and o.rule == rule and (not where or o.where.split(":")[-1].endswith(where.split(":")[-1]))
+                    and not any(known_match(p, o, known) for p in o.props)]
+            if hits:
+                return (vid, "detected", f"{hits[0].rule} {hits[0].where} {hits[0].key}")
+            other = [o for o in obs if o.status == "violation" and not any(known_match(p, o, known) for p in o.props)]
+            if other:
+                return (vid, "detected-elsewhere", f"{other[0].rule} {other[0].where} {other[0].key}")
+            return (vid, "MISSED", f"expected {rule} in {where}")
+        else:
+            stale = _neutral_transform(tmp, payload)
+            if stale:
+                return (vid, "stale", stale)
+            try:
+                obs = _collect(tmp)
+            except AnalysisError as e:
+                return (vid, "FALSE-ALARM", f"analysis error on a neutral variant: {e}")
+            return (vid, "neutral-result", sorted({(o.rule, o.where, o.key, o.status) for o in obs if o.status in ("ok", "violation")}))
+    finally:
+        shutil.rmtree(tmp, ignore_errors=True)
+
+
+def run_selftest(pid: str, seed: int = 0, only: Optional[List[str]] = None) -> dict:
+    jobs = []
+    for v in V:
+        if pid == "all" or pid in v[1]:
+            if only is None or v[0] in only:
+                jobs.append(("break", v[0], v))
+    for nname in NEUTRAL:
+        if only is None or nname in only:
+            jobs.append(("neutral", nname, nname))
+    base = None
+    if any(j[0] == "neutral" for j in jobs):
+        base = sorted({(o.rule, o.where, o.key, o.status) for o in _collect(REPO) if o.status in ("ok", "violation")})
+    workers = min(16, max(1, len(jobs)))
+    results = []
+    with ProcessPoolExecutor(max_workers=workers) as ex:
+        for r in ex.map(_run_variant, jobs):
+            results.append(r)
+    failed, detail = [], []
+    counts: Dict[str, int] = {}
+    for vid, status, info in results:
+        if status == "neutral-result":
+            if info == base:
+                status, info = "neutral-ok", "verdicts unchanged"
+            else:
+                a, b = set(base), set(info)
+                status, info = "FALSE-ALARM", f"verdict changes: +{sorted(b - a)[:3]} -{sorted(a - b)[:3]}"
+        counts[status] = counts.get(status, 0) + 1
+        if status in ("MISSED", "FALSE-ALARM"):
+            failed.append(f"{vid}: {status} {info}")
+        detail.append({"variant": vid, "result": status, "info": info if isinstance(info, str) else ""})
+    return {"variants": len(results), "counts": counts, "failed": failed, "detail": detail}
+
+
+if __name__ == "__main__":
+    import json
+    import sys
+    res = run_selftest(sys.argv[1] if len(sys.argv) > 1 else "all", only=sys.argv[2:] or None)
+    for d in res["detail"]:
+        print(f"{d['result']:20s} {d['variant']:36s} {d['info'][:120]}")
+    print(res["counts"])
+    sys.exit(1 if res["failed"] else 0)
